@@ -49,6 +49,11 @@ func (m *model) refs(codeHash []byte) int {
 	return n
 }
 
+type keptHandler struct {
+	ua    state.UserAccountHandler
+	after *acct
+}
+
 type snapshot struct {
 	jlen int
 	m    *model
@@ -69,6 +74,7 @@ type run struct {
 
 	revertsUndoing, sharedReleased, storeWrites, arenaWrites, readAfterPersist int
 	sharedSeen                                                                map[string]bool
+	kept                                                                      map[int]*keptHandler
 }
 
 func (r *run) open(root []byte) bool {
@@ -84,7 +90,7 @@ func (r *run) open(root []byte) bool {
 
 func execute(c *simkit.Ctx) bool {
 	p := c.Plan
-	r := &run{c: c, m: &model{accts: map[string]*acct{}}, sharedSeen: map[string]bool{}}
+	r := &run{c: c, m: &model{accts: map[string]*acct{}}, sharedSeen: map[string]bool{}, kept: map[int]*keptHandler{}}
 	r.committed = r.m.clone()
 	r.disk, r.ewl = simkit.NewSimDisk("trie", c), simkit.NewSimDisk("ewl", nil)
 	if !r.open(nil) {
@@ -336,13 +342,19 @@ func (r *run) step(st *simkit.Step) {
 	firedBefore := c.Faults["get_error"]
 	if fault {
 		r.se.Store.ClearCache()
-		r.disk.ArmAll("get_error")
+		if st.FaultAt > 0 && len(st.B) == 0 && (st.Op == "save" || st.Op == "resave") {
+			// without storage writes the order of disk reads of a step does not depend on Go map iteration:
+			// only the n-th read fails (reaches reads deep inside the operation, e.g. of a code entry)
+			r.disk.Arm("get_error", st.FaultAt-1)
+		} else {
+			r.disk.ArmAll("get_error")
+		}
 	}
 	defer r.disk.Disarm()
 	fired := func() bool { return c.Faults["get_error"] > firedBefore }
 	jlen0 := 0
 	var root0 []byte
-	if st.Op == "save" || st.Op == "remove" {
+	if st.Op == "save" || st.Op == "remove" || st.Op == "resave" {
 		jlen0 = adb.JournalLen()
 		root0, _ = adb.RootHash()
 	}
@@ -474,6 +486,17 @@ func (r *run) step(st *simkit.Step) {
 			return
 		}
 		r.m.accts[string(addr)] = na
+		// keep the handler for a later "resave" (a retried operation saves the same in-memory handler again), but only
+		// for accounts that never had storage: a handler with a data trie carries a root hash that a revert makes stale
+		// and only for a handler whose code was set in this very step (a retried deploy / code change): a handler that
+		// merely carries a code hash it loaded would, saved again over a different state, be a stale overwrite by the caller
+		if len(st.B) == 0 && len(na.storage) == 0 && len(ua.GetRootHash()) == 0 && st.Int(2, -1) >= 0 {
+			cp := *na
+			cp.storage = map[string][]byte{}
+			r.kept[st.T] = &keptHandler{ua: ua, after: &cp}
+		} else {
+			delete(r.kept, st.T)
+		}
 		if len(st.B) > 0 && !fired() {
 			// read back after saving through a freshly loaded account
 			acc2, err := adb.GetExistingAccount(addr)
@@ -491,7 +514,28 @@ func (r *run) step(st *simkit.Step) {
 				}
 			}
 		}
+	case "resave":
+		// the same in-memory handler is saved once more (retry of an operation whose first save may have been reverted)
+		k := r.kept[st.T]
+		if k == nil {
+			return
+		}
+		err := adb.SaveAccount(k.ua)
+		c.Eventf("%d resave acct=%d -> err=%v", c.CurStep, st.T, err != nil)
+		if err != nil {
+			if fired() {
+				r.failedStep("SaveAccount")
+			} else {
+				opFailed("SaveAccount", err)
+			}
+			return
+		}
+		cp := *k.after
+		cp.storage = map[string][]byte{}
+		r.m.accts[string(addr)] = &cp
+		c.Probe("handler_saved_again")
 	case "remove":
+		delete(r.kept, st.T)
 		err := adb.RemoveAccount(addr)
 		_, exists := r.m.accts[string(addr)]
 		c.Eventf("%d remove acct=%d -> err=%v", c.CurStep, st.T, err != nil)
@@ -575,6 +619,7 @@ func (r *run) step(st *simkit.Step) {
 			r.readAfterPersist++
 		}
 	case "restart":
+		r.kept = map[int]*keptHandler{}
 		r.se.Close()
 		c.Fault("close_reopen")
 		c.Eventf("%d restart on %x", c.CurStep, r.lastRoot)
